@@ -197,8 +197,8 @@ def native_fixed_replay(scratch, crate_dir, rel_file, harness_file, name, timeou
     `#[kani::..]` attributes stripped, `#[test]` put on the one harness and a no-op `kani` shim, then `cargo test` runs it.
     Returns (test_source, native_output, reproduced)."""
     src = open(os.path.join(scratch, '_verif_harness', harness_file)).read()
-    src = re.sub(r'(?m)^\s*#\[kani::[^\]]*\]\s*\n', '', src)
-    src, n = re.subn(r'(?m)^fn %s\(\)' % re.escape(name), '#[test]\nfn %s()' % name, src)
+    src = re.sub(r'#\[kani::[^\]]*\][ \t]*\n?', '', src)
+    src, n = re.subn(r'(?m)^[ \t]*fn %s\(\)' % re.escape(name), '#[test]\nfn %s()' % name, src)
     if n != 1: return '', 'harness fn not found for native replay', None
     shim = ('#![allow(unused, dead_code)]\nmod kani { pub fn any<T>() -> T { panic!("symbolic input reached in native replay") } pub fn assume(_: bool) {}\n'
             '  macro_rules! cover { ($($t:tt)*) => {} } pub(crate) use cover; }\n')
